@@ -1,5 +1,6 @@
 import Ptn.Common.EinsumNet
 import Ptn.C04.Core
+import Ptn.C04.Layer
 /-! Value level for C04: what the binding records proved in `Core.lean` EVALUATE to.
 
 `contract_two_ttns_graph` shows that the loop of `contract_two_ttns` binds exactly the specification graph
@@ -103,5 +104,225 @@ theorem scalar_product_value {R : Type} [CommSemiring R] (t : Tree) (hnd : t.ids
   apply Expr.inner_of_record dim e K B he hK hB hdis (physPairs t) hfree _ hleaf σ
   refine heb.trans (hb.trans ((ssSpec_split t).trans ?_))
   exact List.Perm.append_left _ (List.Perm.append hKb.symm hBb.symm)
+
+/-! ## Provenance: the loop itself is such a program (`Built.lean`, `BuiltFns.lean`, `BuiltTree.lean`, `Layer.lean`) -/
+
+section provenance
+set_option linter.unusedSectionVars false
+variable {R : Type} [CommSemiring R]
+
+/-- the ket layer: virtual legs `gKet i n`, axis order of `gKetT`, bonds recorded `(parent leg, child leg)` -/
+def ketLayer (kv : Nat → Asg Leg → R) : Layer R :=
+  ⟨Leg.gKet, fun i p kids => (gKetT i ⟨p, kids⟩).legs, kv, false⟩
+/-- the bra layer: axis order of `gBraT` with the bra's own child order, bonds recorded `(child leg, parent leg)` -/
+def braLayer (bv : Nat → Asg Leg → R) (braKids : Nat → List Nat) : Layer R :=
+  ⟨Leg.gBra, fun i p _ => (gBraT i ⟨p, braKids i⟩).legs, bv, true⟩
+
+/-- **the dense ket vector**: the ket network contracted over its bonds, every node absorbing its subtrees child
+by child -/
+def ketExpr (kv : Nat → Asg Leg → R) (t : Tree) : Expr Leg R := layExpr (ketLayer kv) none t
+/-- **the dense bra vector** -/
+def braExpr (bv : Nat → Asg Leg → R) (braKids : Nat → List Nat) (t : Tree) : Expr Leg R :=
+  layExpr (braLayer bv braKids) none t
+
+mutual
+theorem filter_ket_ssSpec : ∀ t : Tree, (ssSpec t).filter isKetEdge = t.edges.map fun e => ketEdge e.1 e.2
+  | .node i ks => by
+    simp only [ssSpec, Tree.edges, List.filter_cons]
+    simpa [physPair, isKetEdge] using filter_ket_ssSpecL i ks
+theorem filter_ket_ssSpecL (i : Nat) : ∀ ts : List Tree,
+    (ssSpecL i ts).filter isKetEdge = (Tree.edgesL i ts).map fun e => ketEdge e.1 e.2
+  | [] => rfl
+  | c :: cs => by
+    simp only [ssSpecL, Tree.edgesL, List.filter_cons, List.filter_append, List.map_cons, List.map_append,
+      filter_ket_ssSpec c, filter_ket_ssSpecL i cs]
+    simp [ketEdge, braEdge, isKetEdge]
+end
+
+mutual
+theorem filter_bra_ssSpec : ∀ t : Tree, (ssSpec t).filter isBraEdge = t.edges.map fun e => braEdge e.1 e.2
+  | .node i ks => by
+    simp only [ssSpec, Tree.edges, List.filter_cons]
+    simpa [physPair, isBraEdge] using filter_bra_ssSpecL i ks
+theorem filter_bra_ssSpecL (i : Nat) : ∀ ts : List Tree,
+    (ssSpecL i ts).filter isBraEdge = (Tree.edgesL i ts).map fun e => braEdge e.1 e.2
+  | [] => rfl
+  | c :: cs => by
+    simp only [ssSpecL, Tree.edgesL, List.filter_cons, List.filter_append, List.map_cons, List.map_append,
+      filter_bra_ssSpec c, filter_bra_ssSpecL i cs]
+    simp [ketEdge, braEdge, isBraEdge]
+end
+
+theorem ssNodeLeaves_eq (kv bv : Nat → Asg Leg → R) (braKids : Nat → List Nat) :
+    ssNodeLeaves braKids kv bv =
+      fun i p k => (ketLayer kv).nodeLeaves i p k ++ (braLayer bv braKids).nodeLeaves i p k := rfl
+
+theorem ketLayer_inj (kv : Nat → Asg Leg → R) : (ketLayer kv).Inj := by
+  intro a b a' b' h
+  simp only [ketLayer] at h
+  injection h with h1 h2
+  exact ⟨h1, h2⟩
+
+theorem braLayer_inj (bv : Nat → Asg Leg → R) (braKids : Nat → List Nat) : (braLayer bv braKids).Inj := by
+  intro a b a' b' h
+  simp only [braLayer] at h
+  injection h with h1 h2
+  exact ⟨h1, h2⟩
+
+/-- the hypotheses on the node tensors: each reads only its own legs -/
+def KetLocal (kv : Nat → Asg Leg → R) (t : Tree) : Prop :=
+  ∀ e ∈ Tree.info none t, DependsOn (· ∈ (gKetT e.1 ⟨e.2.1, e.2.2⟩).legs) (kv e.1)
+def BraLocal (bv : Nat → Asg Leg → R) (braKids : Nat → List Nat) (t : Tree) : Prop :=
+  ∀ e ∈ Tree.info none t, DependsOn (· ∈ (gBraT e.1 ⟨e.2.1, braKids e.1⟩).legs) (bv e.1)
+
+theorem ss_nodeOK (kv bv : Nat → Asg Leg → R) (braKids : Nat → List Nat) (e : Nat × Option Nat × List Nat)
+    (hn : (e.2.1.toList ++ e.2.2).Nodup) (hp : (braKids e.1).Perm e.2.2) :
+    NodeOK (ssNodeLeaves braKids kv bv) e := by
+  obtain ⟨i, p, kids⟩ := e
+  simp only at hn hp
+  have hn' : (p.toList ++ braKids i).Nodup := (List.Perm.append_left _ hp).nodup_iff.2 hn
+  constructor
+  · simp only [labelsOf, ssNodeLeaves, gKetT, gBraT, T.fresh, Node.nbrs, List.flatMap_cons, List.flatMap_nil,
+      List.append_nil]
+    rw [List.nodup_append]
+    refine ⟨?_, ?_, ?_⟩
+    · rw [List.nodup_append]
+      refine ⟨?_, by simp, by
+        intro x hx y hy hxy; simp only [List.mem_singleton] at hy; subst hy; subst hxy; simp at hx⟩
+      exact nodup_map_of_inj_on _ _ hn (fun x _ y _ h => by injection h)
+    · rw [List.nodup_append]
+      refine ⟨?_, by simp, by
+        intro x hx y hy hxy; simp only [List.mem_singleton] at hy; subst hy; subst hxy; simp at hx⟩
+      exact nodup_map_of_inj_on _ _ hn' (fun x _ y _ h => by injection h)
+    · intro x hx y hy hxy
+      subst hxy
+      simp only [List.mem_append, List.mem_map, List.mem_singleton] at hx hy
+      rcases hx with ⟨_, _, rfl⟩ | rfl <;> rcases hy with ⟨_, _, h⟩ | h <;> simp at h
+  · intro l hl
+    simp only [labelsOf, ssNodeLeaves, gKetT, gBraT, T.fresh, Node.nbrs, List.flatMap_cons, List.flatMap_nil,
+      List.append_nil, List.mem_append, List.mem_map, List.mem_singleton] at hl
+    rcases hl with (⟨_, _, rfl⟩ | rfl) | (⟨_, _, rfl⟩ | rfl) <;> rfl
+
+theorem nodeOK_left {f g : Nat → Option Nat → List Nat → List (LeafT R)} {e : Nat × Option Nat × List Nat}
+    (h : NodeOK (fun i p k => f i p k ++ g i p k) e) : NodeOK f e := by
+  obtain ⟨h1, h2⟩ := h
+  simp only [labelsOf, List.flatMap_append] at h1 h2
+  exact ⟨(List.nodup_append.1 h1).1, fun l hl => h2 l (List.mem_append.2 (Or.inl hl))⟩
+
+theorem nodeOK_right {f g : Nat → Option Nat → List Nat → List (LeafT R)} {e : Nat × Option Nat × List Nat}
+    (h : NodeOK (fun i p k => f i p k ++ g i p k) e) : NodeOK g e := by
+  obtain ⟨h1, h2⟩ := h
+  simp only [labelsOf, List.flatMap_append] at h1 h2
+  exact ⟨(List.nodup_append.1 h1).2.1, fun l hl => h2 l (List.mem_append.2 (Or.inr hl))⟩
+
+/-- **`contract_two_ttns` computes the dense inner product — unconditionally.**  For every tree with distinct
+identifiers, every child order of the bra network, every commutative semiring, all dimensions and ALL values of
+the node tensors (each reading only its own legs):
+
+* the loop returns a closed tensor `⟨[], binds⟩`;
+* that tensor is BUILT, by the `tensordot` calls the loop performs (`Built`, one lemma per function of the
+  model), from an expression `e` whose leaves are exactly the ket and bra tensors of all nodes;
+* EVERY expression `e` from which the result is built over these leaves is strongly well-formed, has the
+  record `binds`, and evaluates to `Σ_phys K · B`, the sum over one common index per physical pair of the
+  product of the dense ket vector `ketExpr` and the dense bra vector `braExpr` (each network contracted over its
+  own bonds, child by child).
+
+So the number the loop's own sequence of `tensordot` calls computes IS the dense inner product. -/
+theorem contract_two_ttns_value (t : Tree) (hnd : t.ids.Nodup)
+    (braKids : Nat → List Nat) (hperm : ∀ e ∈ Tree.info none t, (braKids e.1).Perm e.2.2)
+    (kv bv : Nat → Asg Leg → R) (hkv : KetLocal kv t) (hbv : BraLocal bv braKids t) :
+    ∃ binds, contractTwoTtns (netOf t (fun _ ks => ks) gKetT) (netOf t (fun i _ => braKids i) gBraT)
+        = some ⟨[], binds⟩ ∧
+      (∃ e : Expr Leg R, Built ⟨[], binds⟩ e ∧ e.leaves.Perm (ssLeaves braKids kv bv none t)) ∧
+      ∀ e : Expr Leg R, Built ⟨[], binds⟩ e → e.leaves.Perm (ssLeaves braKids kv bv none t) →
+        e.SWF ∧ e.binds.Perm binds ∧ e.free = [] ∧
+        ∀ (dim : Leg → Nat) (σ : Asg Leg), e.eval dim σ =
+          sumPairs dim (physPairs t)
+            (fun τ => (ketExpr kv t).eval dim τ * (braExpr bv braKids t).eval dim τ) σ := by
+  refine ⟨_, contractTwoTtns_eq t hnd braKids hperm, contractTwoTtns_built kv bv t hnd braKids hperm, ?_⟩
+  intro e hbuilt hleaves
+  have hnone : ∀ q, (none : Option Nat) = some q → q ∉ t.ids := fun q hq => by simp at hq
+  have hnb := info_nbrs_nodup t none hnd hnone
+  have hok : ∀ e ∈ Tree.info none t, NodeOK (ssNodeLeaves braKids kv bv) e :=
+    fun e he => ss_nodeOK kv bv braKids e (hnb e he) (hperm e he)
+  have hlab := treeLeaves_labels (ssNodeLeaves braKids kv bv) t none hnd hok
+  -- the built expression
+  have hend : e.labels.Nodup := by
+    rw [Expr.labels_eq_leaves]
+    exact (hleaves.flatMap_right _).nodup_iff.2 hlab.1
+  have hloc : e.LeavesLocal := by
+    intro lf hlf
+    obtain ⟨x, hx, h⟩ := treeLeaves_sub _ t none lf (hleaves.mem_iff.1 hlf)
+    simp only [ssNodeLeaves, List.mem_cons, List.not_mem_nil, or_false] at h
+    rcases h with rfl | rfl
+    · exact hkv x hx
+    · exact hbv x hx
+  have hswf := hbuilt.swf hend hloc
+  obtain ⟨hbinds, hlegs, _⟩ := hbuilt.sound hend
+  have hfree : e.free = [] := List.Perm.eq_nil (hlegs.symm)
+  refine ⟨hswf, hbinds.symm, hfree, ?_⟩
+  -- the two dense vectors
+  have hokK : ∀ e ∈ Tree.info none t, NodeOK (ketLayer kv).nodeLeaves e := fun e he =>
+    nodeOK_left (f := (ketLayer kv).nodeLeaves) (g := (braLayer bv braKids).nodeLeaves) (hok e he)
+  have hokB : ∀ e ∈ Tree.info none t, NodeOK (braLayer bv braKids).nodeLeaves e := fun e he =>
+    nodeOK_right (f := (ketLayer kv).nodeLeaves) (g := (braLayer bv braKids).nodeLeaves) (hok e he)
+  have hK : (ketExpr kv t).SWF := layExpr_swf (ketLayer kv) (ketLayer_inj kv) t none hnd hnone
+    (fun e _ n hn => by
+      simp only [ketLayer, gKetT, T.fresh, Node.nbrs, List.mem_append, List.mem_map]
+      exact Or.inl ⟨n, List.mem_append.1 hn, rfl⟩)
+    hokK hkv
+  have hB : (braExpr bv braKids t).SWF := layExpr_swf (braLayer bv braKids) (braLayer_inj bv braKids) t none hnd hnone
+    (fun e he n hn => by
+      simp only [braLayer, gBraT, T.fresh, Node.nbrs, List.mem_append, List.mem_map]
+      refine Or.inl ⟨n, ?_, rfl⟩
+      rcases List.mem_append.1 hn with h | h
+      · exact Or.inl h
+      · exact Or.inr ((hperm e he).mem_iff.2 h))
+    hokB hbv
+  have hLK := layExpr_leaves (ketLayer kv) t none
+  have hLB := layExpr_leaves (braLayer bv braKids) t none
+  have hsplit : (ssLeaves braKids kv bv none t).Perm ((ketExpr kv t).leaves ++ (braExpr bv braKids t).leaves) := by
+    have := treeLeaves_append (ketLayer kv).nodeLeaves (braLayer bv braKids).nodeLeaves t none
+    exact this.trans (List.Perm.append hLK.symm hLB.symm)
+  have hdis : ∀ l ∈ (ketExpr kv t).labels, l ∉ (braExpr bv braKids t).labels := by
+    have h1 : (labelsOf ((ketExpr kv t).leaves ++ (braExpr bv braKids t).leaves)).Nodup :=
+      (hsplit.flatMap_right _).nodup_iff.1 hlab.1
+    simp only [labelsOf, List.flatMap_append] at h1
+    rw [← Expr.labels_eq_leaves, ← Expr.labels_eq_leaves] at h1
+    intro l hl hl'
+    exact (List.nodup_append.1 h1).2.2 l hl l hl' rfl
+  have hfreeP : ∀ p ∈ physPairs t, p.1 ∈ (ketExpr kv t).free ∧ p.2 ∈ (braExpr bv braKids t).free := by
+    intro p hp
+    obtain ⟨n, hn, rfl⟩ := (mem_physPairs t p).1 hp
+    rw [← Tree.info_keys none t] at hn
+    obtain ⟨x, hx, rfl⟩ := List.mem_map.1 hn
+    constructor
+    · apply layExpr_free_phys (ketLayer kv) _ (fun a b => by simp [physPair, ketLayer]) t none
+      simp only [labelsOf, List.mem_flatMap]
+      exact ⟨_, nodeLeaves_sub _ t none x hx _ (List.mem_singleton.2 rfl), by simp [ketLayer, gKetT, T.fresh, physPair]⟩
+    · apply layExpr_free_phys (braLayer bv braKids) _ (fun a b => by simp [physPair, braLayer]) t none
+      simp only [labelsOf, List.mem_flatMap]
+      exact ⟨_, nodeLeaves_sub _ t none x hx _ (List.mem_singleton.2 rfl), by simp [braLayer, gBraT, T.fresh, physPair]⟩
+  have hKb : (ketExpr kv t).binds.Perm (ketBonds t) := by
+    rw [ketBonds, filter_ket_ssSpec]
+    have := layExpr_binds (ketLayer kv) t none
+    simpa [Layer.edge, ketLayer, ketEdge, ketExpr] using this
+  have hBb : (braExpr bv braKids t).binds.Perm (braBonds t) := by
+    rw [braBonds, filter_bra_ssSpec]
+    have := layExpr_binds (braLayer bv braKids) t none
+    simpa [Layer.edge, braLayer, braEdge, braExpr] using this
+  have hrec : e.binds.Perm (physPairs t ++ ((ketExpr kv t).binds ++ (braExpr bv braKids t).binds)) := by
+    have hb := ssRootBinds_perm t (braKids t.id) (by
+      have := hperm (t.id, none, t.kids.map Tree.id) (by cases t; simp [Tree.info, Tree.id, Tree.kids])
+      simpa using this)
+    refine hbinds.symm.trans (hb.trans ((ssSpec_split t).trans ?_))
+    exact List.Perm.append_left _ (List.Perm.append hKb.symm hBb.symm)
+  intro dim σ
+  apply Expr.inner_of_record dim e _ _ hswf hK hB hdis (physPairs t) hfreeP hrec _ σ
+  intro τ
+  rw [Expr.leafProd_of_leaves e _ (hleaves.trans hsplit) τ, List.map_append, prodL_append]
+  rfl
+
+end provenance
 
 end Ptn.C04
